@@ -49,9 +49,18 @@ inductive SPhase
   | done
   deriving DecidableEq, Repr, Inhabited
 
+/-- Life cycle of the handler goroutines: `start()` launches them after a successful negotiation;
+if the peer is disconnected first (failed negotiation, timeout, `Disconnect` during negotiation)
+they are never launched and `AssociateConnection`'s goroutine drains the output queue instead. -/
+inductive HPhase | pre | started | abandoned | drained
+  deriving DecidableEq, Repr, Inhabited
+
 structure Cfg where
   /-- capacity of `outputQueue` -/
   cap : Nat
+  /-- `true` = before the repair of F-C18-b: nothing drains `outputQueue` when the handlers are
+  never started. -/
+  drainBug : Bool
   /-- `true` = the stall handler as found in the tree before the repair of F-C18-a: the closed
   `inQuit` (resp. `outQuit`) channel stays selectable after it was observed. `false` = repaired
   (each quit channel is observed once). -/
@@ -66,6 +75,7 @@ structure Sys where
   outQ : List Nat          -- outputQueue contents
   disc : Bool              -- disconnect flag set / quit closed
   connLost : Bool          -- writes to the connection fail
+  hs : HPhase
   qh : QPhase
   waiting : Bool
   pending : List Nat       -- pendingMsgs
@@ -82,7 +92,7 @@ structure Sys where
   deriving DecidableEq, Repr, Inhabited
 
 def init (ids : List Nat) : Sys :=
-  { todo := ids, checked := [], outQ := [], disc := false, connLost := false, qh := .main,
+  { todo := ids, checked := [], outQ := [], disc := false, connLost := false, hs := .pre, qh := .main,
     waiting := false, pending := [], sendQ := [], sendDone := 0, oh := .main, stallCh := 0,
     sh := .running false false, inDone := false, written := [],
     done := [], sent := [], sentBefore := [] }
@@ -96,21 +106,13 @@ inductive Choice
   | oRecv | oQuit | oStep
   | iExit               -- inHandler returns (its read failed after the disconnect): closes inQuit
   | sRecv | sInQuit | sOutQuit   -- stallHandler's select cases
+  | start               -- `start()` launches the handler goroutines
+  | abandon             -- `start()` returns an error: the handlers will never run
+  | aStep               -- one iteration of the drain loop that replaces them
   deriving DecidableEq, Repr, Inhabited
 
-def stepOpt (c : Cfg) (s : Sys) : Choice → Option Sys
-  | .check m =>
-    if m ∈ s.todo ∧ (∀ p, c.pred m = some p → p ∉ s.todo ∧ p ∉ s.checked) then
-      if s.disc then some { s with todo := s.todo.erase m, done := s.done ++ [m] }
-      else some { s with todo := s.todo.erase m, checked := s.checked ++ [m] }
-    else none
-  | .send m =>
-    if m ∈ s.checked ∧ s.outQ.length < c.cap then
-      some { s with checked := s.checked.erase m, outQ := s.outQ ++ [m], sent := s.sent ++ [m],
-                    sentBefore := if s.disc then s.sentBefore else s.sentBefore ++ [m] }
-    else none
-  | .disconnect => if s.disc then none else some { s with disc := true }
-  | .loseConn => if s.connLost then none else some { s with connLost := true }
+/-- Actions of the handler goroutines (only once they have been started). -/
+def hStep (c : Cfg) (s : Sys) : Choice → Option Sys
   | .qRecvOut =>
     match s.qh, s.outQ with
     | .main, m :: rest =>
@@ -184,6 +186,30 @@ def stepOpt (c : Cfg) (s : Sys) : Choice → Option Sys
         else some { s with sh := .running si true }
       else none
     | .done => none
+  | _ => none
+
+def stepOpt (c : Cfg) (s : Sys) : Choice → Option Sys
+  | .check m =>
+    if m ∈ s.todo ∧ (∀ p, c.pred m = some p → p ∉ s.todo ∧ p ∉ s.checked) then
+      if s.disc then some { s with todo := s.todo.erase m, done := s.done ++ [m] }
+      else some { s with todo := s.todo.erase m, checked := s.checked ++ [m] }
+    else none
+  | .send m =>
+    if m ∈ s.checked ∧ s.outQ.length < c.cap then
+      some { s with checked := s.checked.erase m, outQ := s.outQ ++ [m], sent := s.sent ++ [m],
+                    sentBefore := if s.disc then s.sentBefore else s.sentBefore ++ [m] }
+    else none
+  | .disconnect => if s.disc then none else some { s with disc := true }
+  | .loseConn => if s.connLost then none else some { s with connLost := true }
+  | .start => if s.hs = .pre then some { s with hs := .started } else none
+  | .abandon => if s.hs = .pre ∧ s.disc then some { s with hs := .abandoned } else none
+  | .aStep =>
+    if s.hs = .abandoned ∧ c.drainBug = false then
+      match s.outQ with
+      | m :: rest => some { s with outQ := rest, done := s.done ++ [m] }
+      | [] => some { s with hs := .drained }
+    else none
+  | ch => if s.hs = .started then hStep c s ch else none
 
 def step (c : Cfg) (s : Sys) (ch : Choice) : Sys := (stepOpt c s ch).getD s
 
@@ -191,8 +217,10 @@ def exec (c : Cfg) : Sys → List Choice → Sys
   | s, [] => s
   | s, ch :: rest => exec c (step c s ch) rest
 
-/-- All handler goroutines (queue, out, in, stall) have returned. -/
-def final (s : Sys) : Bool := s.qh = .done ∧ s.oh = .done ∧ s.sh = .done ∧ s.inDone = true
+/-- All handler goroutines (queue, out, in, stall) have returned — or they were never started and
+the replacement drain loop has finished. -/
+def final (s : Sys) : Bool :=
+  (s.hs = .started ∧ s.qh = .done ∧ s.oh = .done ∧ s.sh = .done ∧ s.inDone = true) ∨ s.hs = .drained
 
 /-- Message the out handler holds whose done signal is still to come. -/
 def OPhase.held : OPhase → List Nat
